@@ -32,7 +32,7 @@ Proof.
 Qed.
 
 Lemma b0_nonneg : nonneg (bal b0).
-Proof. intro a. do 19 (destruct a as [|a]; [vm_compute; congruence|]). vm_compute. congruence. Qed.
+Proof. intro a. do 20 (destruct a as [|a]; [vm_compute; congruence|]). vm_compute. congruence. Qed.
 
 Example txs_wf : Forall (tx_wf e0) [t_odd; t_low; t_fwd; t_sds; t_rev].
 Proof. repeat constructor; simpl; lia. Qed.
@@ -168,7 +168,7 @@ Example truncating_sync_witness :
 Proof. vm_compute. repeat split; reflexivity. Qed.
 
 Lemma b4_nonneg : nonneg (bal b4).
-Proof. intro a. do 19 (destruct a as [|a]; [vm_compute; congruence|]). vm_compute. congruence. Qed.
+Proof. intro a. do 20 (destruct a as [|a]; [vm_compute; congruence|]). vm_compute. congruence. Qed.
 
 Lemma t_wasm_wf : tx_wf e0 t_wasm.
 Proof. constructor; simpl; [lia|reflexivity]. Qed.
